@@ -105,7 +105,8 @@ def wiring(ctx):
     if len(fd) != 1 or len(en) != 1:
         return
     fd, en = fd[0], en[0]
-    names = {v['name']: v['pl']['l'] for v in body.vars if v['arg'] is not None}
+    names = {'msk': lib.param_by_type(body, r'^&core::MasterSecretKey$'), 'mpk': lib.param_by_type(body, r'^&core::MasterPublicKey$'),
+             'encapsulation': lib.param_by_type(body, r'^&core::XEnc$')}
     # full_decaps(msk, encapsulation)
     r0 = [r for r in root_descr(body, fd.args[0]) if r[0] == 'param']
     r1 = [r for r in root_descr(body, fd.args[1]) if r[0] == 'param']
